@@ -60,7 +60,7 @@ def _exe():
 def run(prop, tier, replay=None):
     chk = vlib.Check(prop, tier)
     exe = _exe()
-    env = {"VERIF_KNOWN_KEYS": KNOWN_KEYS}
+    env = {"VERIF_KNOWN_KEYS": KNOWN_KEYS, "VERIF_PROP": prop}
     if replay:
         import json
         rec = json.load(open(replay))["replay"]
